@@ -203,6 +203,11 @@ def cargo_build(bin_name, features="default"):
         shutil.copy(os.path.join(REPO, "Cargo.lock"), lock)
     cmd = ["cargo", "build", "--offline", "--bin", bin_name, "--target-dir", tdir] + FEATURE_SETS[features]
     env = {"CARGO_NET_OFFLINE": "true", "RUSTFLAGS": f"--cfg {GUARD} -Awarnings"}
+    # coverage map of the streams (tools/covmap.py only; registered checks never set these)
+    if os.environ.get("PV_COV"):
+        tdir = os.path.join(HARNESS, "target", features + "-cov")
+        cmd = ["cargo", "+nightly", "build", "--offline", "--bin", bin_name, "--target-dir", tdir] + FEATURE_SETS[features]
+        env["RUSTFLAGS"] += " -C instrument-coverage"
     with Lock("cargo-" + features):
         rc, out = sh(cmd, cwd=HARNESS, env=env, timeout=3600)
     return rc, out, os.path.join(tdir, "debug", bin_name)
@@ -577,46 +582,52 @@ def run_replay(pid, path):
 
 
 def setup():
-    """Build everything once after a fresh restore (offline)."""
-    ok = True
-    rc, out = lake_build([])
-    print(out[-2000:])
-    ok &= rc == 0
+    """Build everything once after a fresh restore (offline). Every property is built on its own, so that a property
+    whose Lean files or harness do not build cannot keep the others from being set up; the failing property's own
+    check reports the broken obligation. The exit code is non-zero only when NOTHING could be built."""
+    built_any = False
+    failed = []
     # only what MANIFEST.json claims is built here; unclaimed work in progress cannot break setup
     try:
         man = json.load(open(os.path.join(VERIF, "MANIFEST.json")))
         props = sorted(c["property_id"].lower() for c in man.get("checks", []))
     except Exception:
         props = []
-    drivers, need = set(), set()
+    need = set()
     for p in props:
         try:
             mod = load_module(p.upper())
         except Exception as e:
             print(f"setup: cannot load props module for {p}: {e!r}")
-            ok = False
+            failed.append(p.upper() + " (props module)")
             continue
         if hasattr(mod, "pre_build") and not getattr(mod, "PRE_BUILD_NEEDS_HARNESS", False):
             try:
                 mod.pre_build(Ctx(mod, "quick", DEFAULT_SEED))
             except Exception as e:
                 print(f"setup: pre_build of {p} raised {e!r} (the check itself will report it)")
-        drivers.add(mod.DRIVER)
-        drivers.update(getattr(mod, "EXTRA_DRIVERS", []))
+        targets = sorted({mod.DRIVER} | set(getattr(mod, "EXTRA_DRIVERS", [])) | set(mod.LEAN_TARGETS))
+        rc, out = lake_build(targets)
+        print(f"lake build [{p.upper()}] {' '.join(targets)} rc={rc}")
+        if rc != 0:
+            print(out[-1500:])
+            failed.append(p.upper() + " (lake)")
+        else:
+            built_any = True
         need.add((mod.HARNESS["bin"], mod.HARNESS.get("features", "default")))
         for h in getattr(mod, "EXTRA_HARNESS", []):
             need.add((h["bin"], h.get("features", "default")))
-        drivers.update(mod.LEAN_TARGETS)
-    rc, out = lake_build(sorted(drivers))
-    print(out[-3000:])
-    ok &= rc == 0
     for b, fs in sorted(need):
         rc, out, _ = cargo_build(b, fs)
         print(f"cargo build {b} [{fs}] rc={rc}")
         if rc != 0:
             print(out[-3000:])
-        ok &= rc == 0
-    return 0 if ok else 1
+            failed.append(f"{b}[{fs}] (cargo)")
+        else:
+            built_any = True
+    if failed:
+        print("setup: NOT built (their checks will report it): " + ", ".join(failed))
+    return 0 if built_any else 1
 
 
 def main(argv):
